@@ -77,10 +77,13 @@ def gen(rng, tier, prop):
         case.append([3, which, t, 2, k, 0])
         dicts[which].pop(k, None)
 
-    def pick_target(k):
-        if rng.random() < cyc_p:
-            return rng.choice(keys + extra)
-        return _acyclic_target(rng, order, k, extra)
+    def pick_target(k, which=1):
+        other = dicts[3 - which].get(k)
+        for _ in range(4):
+            j = rng.choice(keys + extra) if rng.random() < cyc_p else _acyclic_target(rng, order, k, extra)
+            if j is not None and j != other:
+                return j
+        return None
 
     first = True
     for t in times:
@@ -94,7 +97,7 @@ def gen(rng, tier, prop):
                     if j is not None:
                         setd(1, t, k, j)
                 if two and rng.random() < 0.4:
-                    j = pick_target(k)
+                    j = pick_target(k, 2)
                     if j is not None:
                         setd(2, t, k, j)
             if explicit:
@@ -121,7 +124,7 @@ def gen(rng, tier, prop):
         if q < 0.25:                                  # retarget / create a link
             k = rng.choice(keys)
             which = 2 if two and rng.random() < 0.4 else 1
-            j = pick_target(k)
+            j = pick_target(k, which)
             if j is not None:
                 setd(which, t, k, j)
         elif q < 0.33:                                # drop a link
@@ -132,15 +135,10 @@ def gen(rng, tier, prop):
             cand = [k for k in keys if k not in val]
             if cand:
                 setd(0, t, rng.choice(cand), rng.randint(0, 9))
-        elif q < 0.47:                                # a value key goes away
-            if len(val) > 1:
-                erased(0, t, rng.choice(sorted(val)))
         if explicit and rng.random() < 0.3:
-            k = rng.choice(keys)
-            if k in ks:
-                case.append([3, 3, t, 2, k, 0])
-                ks.discard(k)
-            else:
+            cand = [k for k in keys if k not in ks]
+            if cand:
+                k = rng.choice(cand)
                 case.append([3, 3, t, 1, k, 0])
                 ks.add(k)
     return case
